@@ -1,9 +1,10 @@
+pub mod c02;
 pub mod c04;
 
 use crate::engine::Property;
 
 pub fn all() -> Vec<Property> {
-    vec![c04::property()]
+    vec![c02::property(), c04::property()]
 }
 
 /// Non-tape engines (libFuzzer campaigns, subprocess sweeps) attached to a property.
